@@ -626,6 +626,13 @@ V_C17(S, e, T, aux) ==
   (IF EngOp(e, "open_position") /\ Len(e.calls) >= 2 /\ e.calls[2].msg = "swap_input"
    THEN Tag(e.calls[2].args.base_asset_limit = e.tx.a.limit, "C17.forward_open") ELSE {})
   \cup
+  \* a trader who holds nothing opens a position: the trade that opens it carries the caller's limit,
+  \* whatever stale record the engine keeps for that trader
+  (IF EngOp(e, "open_position") /\ e.tx.a.vamm \in Vs(S) /\ e.tx.s \in Traders /\ ~Held(PosOf(S, e.tx.a.vamm, e.tx.s))
+   THEN Tag(\A i \in 1..Len(e.calls) : (e.calls[i].entry = "execute" /\ e.calls[i].msg = "swap_input")
+                                          => e.calls[i].args.base_asset_limit = e.tx.a.limit, "C17.forward_open_flat")
+   ELSE {})
+  \cup
   (IF EngOp(e, "close_position") /\ Len(e.calls) >= 2 /\ e.calls[2].msg = "swap_output"
    THEN Tag(e.calls[2].args.quote_asset_limit = e.tx.a.limit, "C17.forward_close") ELSE {})
 A_C17(S, e, T, aux) ==
